@@ -754,7 +754,11 @@ def run_check(ctx, prop, items_fn, rule, extra_eval=None):
     report = Report(level)
     global _PROP
     _PROP = prop
-    tot = engine_i.run_items(ctx, items_fn(ctx.tier), _evaluate, chunk=16)
+    tot = engine_i.run_items(ctx, (i for i in items_fn(ctx.tier) if i[0] != "tparallel"), _evaluate, chunk=16)
+    # an engine-T item is a whole exploration (up to ~2000 executions): one item per work unit
+    heavy = [i for i in items_fn(ctx.tier) if i[0] == "tparallel"]
+    if heavy:
+        tot = engine_i.run_items(ctx, iter(heavy), _evaluate, chunk=1, totals=tot)
     engine_i.fill_report(report, tot, rule=rule, floor_distinct=20)
     return report
 
@@ -816,6 +820,12 @@ def _evaluate(item):
 
 
 def _evaluate_threads(case, bound):
+    """In a forked child that owns the locks of signac / synced_collections and is bounded in time (engine_t.isolated)."""
+    from .. import engine_t
+    return engine_t.isolated(_evaluate_threads_here, case, bound)
+
+
+def _evaluate_threads_here(case, bound):
     """Every interleaving (<= bound preemptions, scheduling points before every mutating system call) of the pool's
     threads must leave the destination tree, and end with the outcome, of the sequential run."""
     import json
@@ -872,7 +882,7 @@ def thread_cases(tier):
             yield case, 1
             if pair[0] in two_tasks and pair[1] in two_tasks and par == 2:
                 k += 1
-                if (tier != "quick" and k % 2 == 1) or k % 3 == 1:
+                if tier != "quick" or k % 3 == 1:
                     yield case, 2
     n3 = 0
     for tri in itertools.permutations(pool[:4], 3):
@@ -880,9 +890,9 @@ def thread_cases(tier):
             continue
         for par in (2, True):
             n3 += 1
-            # three tasks: every schedule with one preemption; two preemptions for every sixteenth case in thorough
+            # three tasks: every schedule with one preemption (quick) / two preemptions (thorough)
             yield (tri, "none", base_opts(strategy="update", doc_sync="bykey-fn", recursive=True, exclude="list", parallel=par),
-                   "sync_projects"), (2 if tier != "quick" and n3 % 16 == 1 else 1)
+                   "sync_projects"), (2 if tier != "quick" else 1)
 
 
 def replay_case(payload, prop):
